@@ -386,3 +386,62 @@ func ruleN20(c *Ctx) {
 	}
 	c.note("%d guarded re-slicings of fixed arrays", n)
 }
+
+// ---------- I19: arbitrary precision becomes float64 in the Int implementation only ----------
+
+func init() {
+	register("I19", "one way from big numbers to floats: (*big.Float).Float64, (*big.Rat).Float64 and (*big.Int).Float64 return +-Inf (and an accuracy that callers tend to drop) when the value is out of range. In the value and library packages they are called only inside the implementation files of Int, where Int.Float does the conversion and finiteFloat turns an infinite result into 'int too large to convert to float'; a second conversion site elsewhere (an 'exact' true division through big.Rat in the evaluator) returns a silent infinity for huge operands", 1, ruleI19)
+	claim("C10", "I19")
+}
+
+func ruleI19(c *Ctx) {
+	n := 0
+	for _, fn := range c.P.Funcs {
+		if !isProdPkg(fnPkgPath(fn)) {
+			continue
+		}
+		ord := 0
+		eachInstr(fn, func(in ssa.Instruction) {
+			call, ok := in.(*ssa.Call)
+			if !ok {
+				return
+			}
+			cal := call.Call.StaticCallee()
+			if cal == nil || fnPkgPath(cal) != "math/big" || cal.Name() != "Float64" || cal.Signature.Recv() == nil {
+				return
+			}
+			n++
+			ord++
+			key := fmt.Sprintf("%s: big number to float64 #%d", fnName(fn), ord)
+			if inIntFiles(c.P, fn) {
+				c.ok(key, c.P.Pos(call.Pos()), "inside the Int implementation, whose callers go through finiteFloat")
+				return
+			}
+			// elsewhere the result must be tested for infinity before it is used
+			tested := false
+			var res ssa.Value = call
+			if refs := call.Referrers(); refs != nil {
+				for _, r := range *refs {
+					if ex, ok := r.(*ssa.Extract); ok && ex.Index == 0 {
+						res = ex
+					}
+				}
+			}
+			if refs := res.Referrers(); refs != nil {
+				for _, r := range *refs {
+					if c2, ok := r.(*ssa.Call); ok {
+						if f := c2.Call.StaticCallee(); f != nil && fnPkgPath(f) == "math" && f.Name() == "IsInf" {
+							tested = true
+						}
+					}
+				}
+			}
+			if tested {
+				c.ok(key, c.P.Pos(call.Pos()), "the result is tested with math.IsInf")
+			} else {
+				c.viol(key, c.P.Pos(call.Pos()), "an arbitrary-precision number is converted to float64 outside the Int implementation and the result is not tested for infinity: a value beyond the float range becomes +-Inf silently where the operation must fail with 'int too large to convert to float'")
+			}
+		})
+	}
+	c.note("%d conversions of big numbers to float64", n)
+}
